@@ -35,7 +35,10 @@ func (lsm *LSM) NewIterators(opt *utils.Options) []utils.Iterator {
 	if mem != nil {
 		iter.iters = append(iter.iters, mem.NewIterator(opt))
 	}
-	for _, imm := range immutables {
+	// Newest immutable first: the merge iterator lets the earlier iterator win when two
+	// sources hold the same internal key (GetMemTables uses the same order for Get).
+	for i := len(immutables) - 1; i >= 0; i-- {
+		imm := immutables[i]
 		if imm == nil {
 			continue
 		}
